@@ -9,6 +9,7 @@ package manifam
 import (
 	"fmt"
 	"os"
+	"path"
 	"runtime"
 	"strings"
 	"testing"
@@ -87,6 +88,78 @@ func TestC13_pom(t *testing.T) {
 // chance draws a biased coin whose minimal (shrunk) value is false.
 func chance(t *rapid.T, label string, num, den int) bool {
 	return rapid.IntRange(0, den-1).Draw(t, label) >= den-num
+}
+
+// ---------------------------------------------------------------------------------------
+// where the writer is asked to write
+
+// c13Out is the output place of a case. Tree is the directory tree the output goes to:
+// "" = out, a sibling of the input tree in (the manifest keeps its relative directory);
+// "in" = the input tree itself, i.e. the manifest's own directory; or a deeper tree such
+// as "out/nested/x". Name is the base name of the output file ("" = the manifest's own).
+// Tree "in" with Name "" is a Write in place.
+type c13Out struct {
+	Tree string
+	Name string
+}
+
+var c13PomOutNames = []string{"pom.patched.xml", "patched-pom.xml", "pom.xml.new", "out.xml"}
+var c13NpmOutNames = []string{"package.patched.json", "package.json.new", "out.json", "patched-package.json"}
+
+// genC13Out draws an output place; the minimal one is the sibling tree with the same name.
+func genC13Out(t *rapid.T, names []string) c13Out {
+	switch rapid.SampledFrom([]int{0, 0, 0, 1, 1, 2, 2, 3, 4, 4}).Draw(t, "out_place") {
+	case 1: // other directory, other name
+		return c13Out{Name: rapid.SampledFrom(names).Draw(t, "out_name")}
+	case 2: // same directory, other name
+		return c13Out{Tree: "in", Name: rapid.SampledFrom(names).Draw(t, "out_name")}
+	case 3: // in place
+		return c13Out{Tree: "in"}
+	case 4: // a deeper directory, same or other name
+		o := c13Out{Tree: "out/nested/x"}
+		if rapid.Bool().Draw(t, "out_nested_other_name") {
+			o.Name = rapid.SampledFrom(names).Draw(t, "out_name")
+		}
+		return o
+	}
+	return c13Out{}
+}
+
+// resolve returns the tree (relative to the workspace root) and the location of the
+// output file in it, for a manifest at manifestRel in the input tree.
+func (o c13Out) resolve(manifestRel string) (tree, rel string, err error) {
+	tree = o.Tree
+	if tree == "" {
+		tree = "out"
+	}
+	if tree != "in" && tree != "out" && !strings.HasPrefix(tree, "out/") || tree != path.Clean(tree) || strings.Contains(tree, "..") {
+		return "", "", fmt.Errorf("output tree %q", o.Tree)
+	}
+	name := o.Name
+	if name == "" {
+		name = path.Base(manifestRel)
+	}
+	if strings.ContainsAny(name, "/\\") || name == "." || name == ".." {
+		return "", "", fmt.Errorf("output name %q", o.Name)
+	}
+	return tree, path.Join(path.Dir(manifestRel), name), nil
+}
+
+// class names the output place for the evidence counters.
+func (o c13Out) class() string {
+	switch {
+	case o.Tree == "in" && o.Name == "":
+		return "out_in_place"
+	case o.Tree == "in":
+		return "out_same_dir_other_name"
+	case o.Tree != "" && o.Name == "":
+		return "out_nested_dir_same_name"
+	case o.Tree != "":
+		return "out_nested_dir_other_name"
+	case o.Name != "":
+		return "out_other_dir_other_name"
+	}
+	return "out_other_dir_same_name"
 }
 
 // ---------------------------------------------------------------------------------------
@@ -356,6 +429,12 @@ func (g *pomGen) dep(file int, profile string) pomDep {
 		d.Comment = rapid.SampledFrom(pomComments).Draw(g.t, "comment")
 	}
 	d.Order = rapid.SampledFrom([]int{0, 0, 0, 1, 2}).Draw(g.t, "dep_order")
+	if chance(g.t, "dep_padded", 1, 10) {
+		// white space around coordinates (and sometimes the version), as hand-edited or
+		// re-wrapped poms have it
+		d.Pad = rapid.SampledFrom([]string{"v", "g", "a", "v", "ga", "gav", "gatc", "tc", "gatcv"}).Draw(g.t, "dep_pad")
+		d.PadNL = rapid.Bool().Draw(g.t, "dep_pad_nl")
+	}
 	return d
 }
 
@@ -446,6 +525,7 @@ func (g *pomGen) plugins(file int, max int) []pomPlugin {
 		}
 		p.Managed = !chance(g.t, "plugin_unmanaged", 1, 4)
 		p.Config = chance(g.t, "plugin_config", 1, 3)
+		p.Pad = chance(g.t, "plugin_padded", 1, 10)
 		nd := rapid.IntRange(0, 2).Draw(g.t, "plugin_deps")
 		for j := 0; j < nd; j++ {
 			p.Deps = append(p.Deps, g.dep(file, ""))
@@ -580,7 +660,7 @@ func genPomCase(t *rapid.T, col *ev.Collector) *pomCase {
 	// profiles first (their ids are needed when properties are placed)
 	np := rapid.IntRange(0, 2).Draw(t, "n_profiles")
 	for i := 0; i < np; i++ {
-		child.Profiles = append(child.Profiles, pomProfile{ID: fmt.Sprintf("profile-%d", i+1), Active: rapid.Bool().Draw(t, "profile_active")})
+		child.Profiles = append(child.Profiles, pomProfile{ID: fmt.Sprintf("profile-%d", i+1), Active: rapid.Bool().Draw(t, "profile_active"), PadID: chance(t, "profile_id_padded", 1, 10)})
 	}
 	// a few stand-alone properties
 	if rapid.Bool().Draw(t, "plain_props") {
@@ -650,12 +730,10 @@ func genPomCase(t *rapid.T, col *ev.Collector) *pomCase {
 
 	// the same package declared with a version in a second place
 	if chance(t, "duplicate_decl", 1, 6) {
+		// (version-less declarations of the manifest included: their version-bearing
+		// declaration is the dependencyManagement entry that manages them)
 		var cands []pomDep
-		for _, d := range child.Deps {
-			if d.Ver != "" {
-				cands = append(cands, d)
-			}
-		}
+		cands = append(cands, child.Deps...)
 		for _, p := range child.Profiles {
 			if !p.Active {
 				cands = append(cands, p.Deps...)
@@ -670,11 +748,38 @@ func genPomCase(t *rapid.T, col *ev.Collector) *pomCase {
 					inactive = append(inactive, i)
 				}
 			}
-			place := rapid.IntRange(0, 3).Draw(t, "dup_place")
+			place := rapid.SampledFrom([]int{0, 1, 2, 3, 4, 5, 4, 5}).Draw(t, "dup_place")
 			switch {
+			case place == 4 && g.hasPar:
+				// a profile of a local ancestor
+				lv := g.ancestor("dup_in_ancestor_profile")
+				g.n++
+				g.files[lv].Profiles = append(g.files[lv].Profiles, pomProfile{ID: fmt.Sprintf("dup-%d", g.n), Active: rapid.Bool().Draw(t, "dup_profile_active"), Deps: []pomDep{dup}})
+			case place == 5 && g.hasPar:
+				// a pluginManagement plugin of a local ancestor
+				lv := g.ancestor("dup_in_ancestor_plugin")
+				placed := false
+				for i := range g.files[lv].Plugins {
+					if pl := &g.files[lv].Plugins[i]; pl.Managed && !placed {
+						pl.Deps = append(pl.Deps, dup)
+						placed = true
+					}
+				}
+				if !placed {
+					g.n++
+					g.files[lv].Plugins = append(g.files[lv].Plugins, pomPlugin{G: "org.codehaus.mojo", A: fmt.Sprintf("dup-maven-plugin%d", g.n), Managed: true, Deps: []pomDep{dup}})
+				}
 			case place == 1 && g.hasPar:
 				lv := g.ancestor("dup_in_ancestor")
-				g.files[lv].Mgmt = append(g.files[lv].Mgmt, dup)
+				has := false
+				for _, x := range g.files[lv].Mgmt {
+					if x.G == dup.G && x.A == dup.A {
+						has = true // the entry that manages a version-less declaration
+					}
+				}
+				if !has {
+					g.files[lv].Mgmt = append(g.files[lv].Mgmt, dup)
+				}
 			case place == 2 && len(inactive) > 0:
 				i := inactive[len(inactive)-1]
 				has := false
@@ -814,5 +919,7 @@ func genPomCase(t *rapid.T, col *ev.Collector) *pomCase {
 			}
 		}
 	}
+	out := genC13Out(t, c13PomOutNames)
+	c.OutTree, c.OutName = out.Tree, out.Name
 	return c
 }
